@@ -71,7 +71,17 @@ impl fmt::Display for LogStorable {
     }
 }
 impl WithStorableDetails for LogStorable {
-    fn summary(&self) -> CommandSummary { CommandSummary::new("log", self) }
+    fn summary(&self) -> CommandSummary {
+        // one label per kind, so that history filters have something to do
+        let label = match self {
+            LogStorable::Init => "log-init",
+            LogStorable::Append(_) => "log-append",
+            LogStorable::Reject(_) => "log-reject",
+            LogStorable::Noop => "log-noop",
+            LogStorable::PreSaveFail(_) => "log-presave",
+        };
+        CommandSummary::new(label, self)
+    }
     fn make_init() -> Self { LogStorable::Init }
 }
 
@@ -596,6 +606,71 @@ fn toy_history(
                     return Some(("history-error-records-mismatch".into(),
                         format!("{ent}: {errors} error records, {rejects} \
                                  rejected commands"), wit(json!({}))))
+                }
+                // filtered and paged listings: for every filter the pages
+                // partition exactly the matching records, in order, and
+                // every page reports the same total
+                let mid = expect_version / 2;
+                let filters: Vec<(&str, CommandHistoryCriteria)> = vec![
+                    ("all", CommandHistoryCriteria::default()),
+                    ("only-append", CommandHistoryCriteria {
+                        label_includes: Some(vec!["log-append".into()]),
+                        ..Default::default() }),
+                    ("no-append", CommandHistoryCriteria {
+                        label_excludes: Some(vec!["log-append".into()]),
+                        ..Default::default() }),
+                    ("after-version", CommandHistoryCriteria {
+                        after_version: Some(mid), ..Default::default() }),
+                ];
+                for (fname, crit) in filters {
+                    let want: Vec<u64> = hst.commands.iter().filter(|c| {
+                        let l = c.summary.label.as_str();
+                        match fname {
+                            "only-append" => l == "log-append",
+                            "no-append" => l != "log-append",
+                            "after-version" => c.version > mid,
+                            _ => true,
+                        }
+                    }).map(|c| c.version).collect();
+                    for rows in 1..=3usize {
+                        let mut got: Vec<u64> = vec![];
+                        let mut offset = 0usize;
+                        loop {
+                            let page = match store_a.command_history(hdl,
+                                CommandHistoryCriteria {
+                                    offset, rows_limit: Some(rows),
+                                    ..crit.clone()
+                                })
+                            {
+                                Ok(p) => p,
+                                Err(e) => return Some(("history-fails".into(),
+                                    e.to_string(), wit(json!({})))),
+                            };
+                            r.count("history_pages_checked", 1);
+                            if page.total != want.len()
+                                || page.commands.len() > rows
+                            {
+                                return Some((
+                                    "history-page-total-or-size-wrong".into(),
+                                    format!("{ent}: filter {fname} rows {rows} \
+                                        offset {offset}: total {} (expected {}), \
+                                        {} records", page.total, want.len(),
+                                        page.commands.len()), wit(json!({}))))
+                            }
+                            if page.commands.is_empty() { break }
+                            got.extend(page.commands.iter().map(|c| c.version));
+                            offset += rows;
+                            if offset > want.len() + rows { break }
+                        }
+                        if got != want {
+                            return Some((
+                                "history-pages-do-not-partition-the-list".into(),
+                                format!("{ent}: filter {fname}, {rows} rows per \
+                                    page: pages give versions {got:?}, the \
+                                    matching records are {want:?}"),
+                                wit(json!({}))))
+                        }
+                    }
                 }
             }
         }
